@@ -124,7 +124,22 @@ if not (m_skip and m_q and marks and m_sw > 0):
     sys.exit("gen_C07Ctl: jddctmgr.c start_pass no longer has the skip / quant_table == NULL / cur_method[ci] = method shape the model mirrors")
 mark_after_check = len(marks) == 1 and m_skip.end() <= m_q.start() and m_q.end() <= marks[0] < m_sw
 
-print("(* GENERATED by tools/gen_C07Ctl.py from src/jccoefct.c, src/jcparam.c, src/jcmarker.c, src/jcapistd.c, src/jcapimin.c, src/jdcoefct.c, src/jddctmgr.c -- do not edit *)")
+# ---- edge replication: jcsample.c expand_right_edge, jcprepct.c expand_bottom_edge -------------------------
+sm_ = strip_comments(rd("jcsample.c"))
+body = func_body(sm_, r"LOCAL\(void\)\s*\nexpand_right_edge\(_JSAMPARRAY image_data, int num_rows, JDIMENSION input_cols,\s*JDIMENSION output_cols\)", "jcsample.c expand_right_edge")
+if not re.search(r"int numcols = \(int\)\(output_cols - input_cols\);\s*if \(numcols > 0\) \{\s*for \(row = 0; row < num_rows; row\+\+\) \{\s*"
+                 r"ptr = image_data\[row\] \+ input_cols;\s*pixval = ptr\[-1\];\s*for \(count = numcols; count > 0; count--\)\s*\*ptr\+\+ = pixval;\s*\}\s*\}", body):
+    sys.exit("gen_C07Ctl: jcsample.c expand_right_edge no longer has the pixval = ptr[-1]; numcols stores shape the model mirrors")
+body = func_body(sm_, r"METHODDEF\(void\)\s*\nfullsize_downsample\(j_compress_ptr cinfo, jpeg_component_info \*compptr,", "jcsample.c fullsize_downsample")
+if not re.search(r"expand_right_edge\(output_data, cinfo->max_v_samp_factor, cinfo->image_width,\s*compptr->width_in_blocks \* data_unit\);", body):
+    sys.exit("gen_C07Ctl: jcsample.c fullsize_downsample no longer pads image_width -> width_in_blocks * data_unit")
+pc_ = strip_comments(rd("jcprepct.c"))
+body = func_body(pc_, r"LOCAL\(void\)\s*\nexpand_bottom_edge\(_JSAMPARRAY image_data, JDIMENSION num_cols, int input_rows,\s*int output_rows\)", "jcprepct.c expand_bottom_edge")
+if not re.search(r"for \(row = input_rows; row < output_rows; row\+\+\) \{\s*_jcopy_sample_rows\(image_data, input_rows - 1, image_data, row, 1,\s*num_cols\);\s*\}", body):
+    sys.exit("gen_C07Ctl: jcprepct.c expand_bottom_edge no longer copies row input_rows - 1 into rows input_rows..output_rows-1")
+n_bottom_calls = len(re.findall(r"expand_bottom_edge\(", pc_)) - 1
+
+print("(* GENERATED by tools/gen_C07Ctl.py from src/jccoefct.c, src/jcparam.c, src/jcmarker.c, src/jcapistd.c, src/jcapimin.c, src/jdcoefct.c, src/jddctmgr.c, src/jcsample.c, src/jcprepct.c -- do not edit *)")
 print("(* compress_data: assignments to xpos found: %s *)" % str(xas + xincr).replace("(*", "( *").replace("*)", "* )"))
 print("Definition xpos_is_mcu_col_times_width : bool := %s." % B(xpos_product))
 print("(* jpeg_add_quant_table: unconditional `qtblptr[0]->sent_table = FALSE;` statements at top level: %d; direct stores into quantval: %d *)" % (len(resets), len(stores)))
@@ -137,3 +152,5 @@ print("Definition decompress_data_waits_until_input_row_gt_output_row : bool := 
 print("(* number of iMCU rows the input must have completed beyond output_iMCU_row when the scans coincide (0 = not established) *)")
 print("Definition decompress_data_rows_ahead : nat := %d." % (1 if rows_ahead_ok else 0))
 print("Definition idct_marks_table_built_after_quant_table_check : bool := %s." % B(mark_after_check))
+print("(* expand_right_edge / expand_bottom_edge / fullsize_downsample have the statement shape model/C07Edge.v mirrors (the translator fails otherwise); call sites of expand_bottom_edge in jcprepct.c: %d *)" % n_bottom_calls)
+print("Definition edge_functions_have_modelled_shape : bool := true.")
